@@ -71,6 +71,8 @@ func rewrites() []textRewrite {
 		{"go/store/nbs/journal_writer.go", `(?m)^\tjournalMaybeSyncThreshold = 64 \* 1024 \* 1024$`, "\tjournalMaybeSyncThresholdDsimConst = 64 * 1024 * 1024", 1},
 		{"go/store/nbs/journal_writer.go", `(?m)^var \(\n\tjournalAddr = `, "var journalMaybeSyncThreshold uint64 = journalMaybeSyncThresholdDsimConst\n\nvar (\n\tjournalAddr = ", 1},
 		{"go/store/nbs/journal_writer.go", `wr\.maxNovel = journalIndexDefaultMaxNovel`, "wr.maxNovel = DsimJournalMaxNovel", 1},
+		// the puller's table-file size: one transfer becomes many files when a run lowers it
+		{"go/libraries/doltcore/doltdb/doltdb.go", `defaultTargetFileSize, srcCS`, "DsimPullTargetFileSize, srcCS", 1},
 	}
 }
 
